@@ -28,6 +28,11 @@ func (g *G) service(scope map[string]bool) {
 	if g.p.BasePaths && rapid.IntRange(0, 2).Draw(t, "svcbase") == 0 {
 		s.BasePath = "/" + norm(s.Name)
 		g.feat("service-base-path")
+		if rapid.IntRange(0, 3).Draw(t, "morebase") == 0 {
+			// a second base path of another length: everything is mounted under both
+			s.MoreBasePaths = []string{"/" + norm(s.Name) + rapid.SampledFrom([]string{"-v2", "/beta", "x"}).Draw(t, "morebasepath")}
+			g.feat("several-service-base-paths")
+		}
 	}
 	if g.p.Errors && rapid.IntRange(0, 1).Draw(t, "svcerr") == 0 {
 		e := &m.ErrorDef{Name: "svc_failure", Temporary: rapid.Bool().Draw(t, "svcerrtemp")}
